@@ -286,7 +286,57 @@ fn suffix_pass(run: &Run) {
     );
 }
 
+/// A choice learned while ANSI was off (an emoji of the word, or the raw English text) must not come back
+/// as a candidate once ANSI is on - neither in the same context after update-engine nor in a new context
+/// over the same store.  Every emoji name / a sample of words x every candidate index.
+fn learned_then_ansi(run: &Run) {
+    let p = pools();
+    let mut words: Vec<String> = p.emoji_names.iter().step_by(run.tier.pick(9, 1)).cloned().collect();
+    words.extend(["sesh", "ami", "help", "cool", "a"].iter().map(|s| s.to_string()));
+    run.exhaustive(
+        "choice-learned-without-ansi-then-ansi-on",
+        &words,
+        |_| (),
+        |w, st, _| {
+            for english in [false, true] {
+                let sb = Sandbox::new();
+                let mut off = Opts::parse("sq");
+                off.english = english;
+                let mut on = off;
+                on.ansi = true;
+                let case = || json!({"learned_then_ansi": w, "english": english});
+                let pf = |p: crate::driver::PanicInfo| Failure::new(panic_kind(&p), p.to_string(), case());
+                let mut ctx = Ctx::new(off, &sb).map_err(pf)?;
+                let n = match ctx.type_frontend(w).map_err(pf)? {
+                    Some(r) => r.cands.len(),
+                    None => continue,
+                };
+                ctx.finish().map_err(pf)?;
+                for idx in 1..n {
+                    ctx.update(off, &sb).map_err(pf)?;
+                    ctx.type_frontend(w).map_err(pf)?;
+                    ctx.commit(idx).map_err(pf)?;
+                    ctx.update(on, &sb).map_err(pf)?;
+                    let r = ctx.type_frontend(w).map_err(pf)?.unwrap();
+                    ctx.finish().map_err(pf)?;
+                    judge(run, st, &on, &r, Some(w), &case)?;
+                    let fresh = Ctx::new(on, &sb).map_err(pf)?;
+                    let r2 = fresh.type_frontend(w).map_err(pf)?.unwrap();
+                    judge(run, st, &on, &r2, Some(w), &case)?;
+                    if r.cands != r2.cands {
+                        return Err(Failure::new("ansi-list-depends-on-history", format!("typed {w:?} under ANSI after learning index {idx} without ANSI: re-configured context {:?}, new context {:?}", r.cands, r2.cands), case()));
+                    }
+                    st.count("learned-then-ansi-checks", 1);
+                }
+            }
+            st.label("learned-then-ansi-words");
+            Ok(())
+        },
+    );
+}
+
 pub fn run(run: &Run) {
+    learned_then_ansi(run);
     dictionary_pass(run);
     suffix_pass(run);
     // emoticons and emoji names under ANSI with English on and off
@@ -355,6 +405,27 @@ pub fn replay(run: &Run, case: &Value) -> Result<(), Failure> {
             Some(r) => judge(run, &mut st, &opts, &r, Some(&raw), &|| case.clone()),
             None => Ok(()),
         };
+    }
+    if let Some(w) = case["learned_then_ansi"].as_str() {
+        let english = case["english"].as_bool().unwrap_or(false);
+        let mut off = Opts::parse("sq");
+        off.english = english;
+        let mut on = off;
+        on.ansi = true;
+        let pf = |p: crate::driver::PanicInfo| Failure::new(panic_kind(&p), p.to_string(), case.clone());
+        let mut ctx = Ctx::new(off, &sb).map_err(pf)?;
+        let n = ctx.type_frontend(w).map_err(pf)?.map(|r| r.cands.len()).unwrap_or(0);
+        ctx.finish().map_err(pf)?;
+        for idx in 1..n {
+            ctx.update(off, &sb).map_err(pf)?;
+            ctx.type_frontend(w).map_err(pf)?;
+            ctx.commit(idx).map_err(pf)?;
+            ctx.update(on, &sb).map_err(pf)?;
+            let r = ctx.type_frontend(w).map_err(pf)?.unwrap();
+            ctx.finish().map_err(pf)?;
+            judge(run, &mut st, &on, &r, Some(w), &|| case.clone())?;
+        }
+        return Ok(());
     }
     if let Some(t) = case["phonetic_text"].as_str() {
         let ctx = Ctx::new(opts, &sb).map_err(|p| Failure::new(panic_kind(&p), p.to_string(), case.clone()))?;
